@@ -1,7 +1,12 @@
 (* C33: ConcurrentVector concurrent growth is exact.
    Part A: arithmetic of allocAsNecessaryImpl (both variants): which reservation allocates which bucket, for every
-           strategy, every firstBucketShift, every partition of [0,n) into consecutive reservations.
-   Part B: inductive invariant over ALL interleavings of Model/CVecGrowModel.v (any number of threads, any programs). *)
+           strategy, every firstBucketShift, every partition of [0,n) into consecutive reservations
+           (allocs1_spec, allocsN_spec, unique_allocator, allocator_precedes, partition_disjoint).
+   Part B: inductive invariant [Inv] over ALL interleavings of Model/CVecGrowModel.v (any number of threads, any programs):
+           one preservation lemma per kind of step (inv_pop, inv_try_null, inv_set_inert, inv_store, inv_cons, inv_fetch),
+           step_inv, reach_inv_grow, and the consequences grow_distinct_indices, grow_pointers_stable, grow_no_overwrite,
+           grow_final_exact, grow_wait_progress, grow_some_thread_progresses; grow_final_size (counting invariant);
+           grow_terminates (every call returns under every fair schedule: lexicographic measure + grow_some_thread_progresses). *)
 From Coq Require Import ZArith List Bool Lia.
 From DV Require Import Base.MachInt Base.Sched Model.CVecModel Model.CVecGrowModel.
 Import ListNotations.
@@ -1124,6 +1129,16 @@ Section Invariant.
       - rewrite IH. exact NZ.
     Qed.
 
+    (* read backwards: a pointer that is null now was null at every earlier moment -- in particular a buffer that the assign
+       loop of allocAsNecessaryImpl stores (null at that moment, i_stnull) was seen null by the sizing loop of the same call,
+       so sizeToAlloc accounts for it *)
+    Corollary grow_null_backwards s s2 k : reachable s -> reach (gstep strat shift) s s2 ->
+      lookup k (g_bufs (sh s2)) = 0 -> lookup k (g_bufs (sh s)) = 0.
+    Proof.
+      intros R R2 Z2. destruct (Z.eq_dec (lookup k (g_bufs (sh s))) 0) as [E|NZ]; [exact E|].
+      rewrite (grow_pointers_stable s s2 k R R2 NZ) in Z2. contradiction.
+    Qed.
+
     (* no position is constructed twice; every construction goes into an allocated buffer and writes the tag that the
        covering reservation assigns to that position *)
     Theorem grow_no_overwrite s : reachable s ->
@@ -1309,3 +1324,161 @@ Section StaticSize.
     destruct (ag th) as [|m a] eqn:Ea; [|discriminate]. unfold pend_th. rewrite Ea, (Ne eq_refl). reflexivity.
   Qed.
 End StaticSize.
+
+(* ------------------------------------------------------------------------------------------------ termination under fair scheduling *)
+(* lexicographic measure: (operations not yet reserved, micro-operations not yet executed); every step of any thread
+   decreases it, except a failed iteration of the spin-wait, which leaves the state unchanged *)
+Definition ra (m : mop) : nat := match m with MSizeLoad _ _ => 2 | MFetch1 _ | MFetchN _ _ _ | MStart => 1 | _ => 0 end.
+Definition rb (m : mop) : nat := match m with MTry _ _ _ => 2 | _ => 1 end.
+Definition nsum (l : list nat) : nat := fold_right Nat.add 0%nat l.
+Definition ma_th (th : thread) : nat := (3 * length (prog th) + nsum (map ra (ag th)))%nat.
+Definition mb_th (th : thread) : nat := nsum (map rb (ag th)).
+Definition MA (s : state) : nat := nsum (map ma_th (threads s)).
+Definition MB (s : state) : nat := nsum (map mb_th (threads s)).
+Definition mlt (s' s : state) : Prop := (MA s' < MA s)%nat \/ (MA s' = MA s /\ MB s' < MB s)%nat.
+
+Lemma nsum_app a b : nsum (a ++ b) = (nsum a + nsum b)%nat.
+Proof. unfold nsum. induction a as [|x a IH]; cbn [app fold_right]; lia. Qed.
+
+Lemma nsum_set_nth (f : thread -> nat) l t th th' : nth_error l t = Some th ->
+  (nsum (map f (set_nth l t th')) + f th = nsum (map f l) + f th')%nat.
+Proof.
+  revert t; induction l as [|a l IH]; intros [|t] N; cbn in N; try discriminate.
+  - injection N as ->. cbn [set_nth map]. unfold nsum. cbn [fold_right]. lia.
+  - cbn [set_nth map]. unfold nsum in *. cbn [fold_right]. specialize (IH _ N). lia.
+Qed.
+
+Lemma set_nth_same {X} (l : list X) t x : nth_error l t = Some x -> set_nth l t x = l.
+Proof. revert t; induction l as [|a l IH]; intros [|t] N; cbn in *; try discriminate; [injection N as ->; reflexivity | rewrite (IH _ N); reflexivity]. Qed.
+
+Lemma set_nth_length {X} (l : list X) t x : length (set_nth l t x) = length l.
+Proof. revert t; induction l as [|a l IH]; intros [|t]; cbn; try reflexivity. rewrite IH. reflexivity. Qed.
+
+Lemma ra_ranked l : (forall m, In m l -> (1 <= rank m)%nat) -> nsum (map ra l) = 0%nat.
+Proof.
+  induction l as [|m l IH]; intros H; [reflexivity|]. cbn [map]. unfold nsum in *. cbn [fold_right].
+  rewrite IH by (intros m' I'; apply H; right; exact I'). specialize (H m (or_introl eq_refl)).
+  destruct m; cbn in *; lia.
+Qed.
+
+Section Liveness.
+  Variable strat shift : Z.
+
+  Lemma step_measure s t ch s' ch' site : gstep strat shift s t ch = Some (s', ch', site) ->
+    mlt s' s \/ (s' = s /\ exists rng k rest, agof s t = MWait rng k :: rest /\ lookup k (g_bufs (sh s)) = 0).
+  Proof.
+    intros E. unfold gstep in E.
+    destruct (nth_error (threads s) t) as [th|] eqn:N; [|discriminate].
+    destruct (ag th) as [|m rest] eqn:Hag; [discriminate|].
+    destruct (exec strat shift t m (sh s)) as [[[g' pre] rs] site0] eqn:X.
+    injection E as <- _ _.
+    set (th0 := TH (pre ++ rest) (prog th) (rev rs ++ res th)).
+    (* normalisation never increases the measure *)
+    assert (Nm : (ma_th (norm th0) < ma_th th0)%nat \/ norm th0 = th0).
+    { unfold norm, th0. cbn [ag prog res]. destruct (pre ++ rest) as [|m0 a0] eqn:Ea; [|right; reflexivity].
+      destruct (prog th) as [|o p] eqn:Ep; [right; reflexivity|]. left.
+      unfold ma_th. cbn [ag prog length map nsum fold_right]. destruct o; cbn; lia. }
+    (* effect of the micro-operation itself *)
+    assert (K : ((ma_th th0 < ma_th th)%nat \/ (ma_th th0 = ma_th th /\ mb_th th0 < mb_th th)%nat) \/
+                (g' = sh s /\ th0 = th /\ exists rng k, m = MWait rng k /\ lookup k (g_bufs (sh s)) = 0)).
+    { unfold ma_th, mb_th, th0. cbn [ag prog]. rewrite Hag. rewrite !map_app, !nsum_app. cbn [map].
+      assert (C : forall (f : mop -> nat) x l, nsum (f x :: l) = (f x + nsum l)%nat) by reflexivity. rewrite !C.
+      destruct m; cbn [exec] in X.
+      - injection X as <- <- _ _. left. cbn. lia.
+      - injection X as <- <- _ _. left. rewrite (ra_ranked _ (plan1_ranks strat shift _ _)). cbn. lia.
+      - injection X as <- <- _ _. left. rewrite (ra_ranked _ (planN_ranks strat shift _ _ _ _)). cbn. lia.
+      - destruct (_ <? _); injection X as <- <- _ _; left; cbn; lia.
+      - injection X as <- <- _ _. left. cbn. lia.
+      - destruct (_ =? _); injection X as <- <- _ _; left; cbn; lia.
+      - injection X as <- <- _ _. left. cbn. lia.
+      - destruct (lookup k (g_bufs (sh s)) =? 0) eqn:Q; injection X as <- <- <- _.
+        + right. split; [reflexivity|]. split.
+          * destruct th as [a p r]. cbn [ag prog res] in *. subst a. reflexivity.
+          * exists rng, k. split; [reflexivity | apply Z.eqb_eq; exact Q].
+        + left. cbn. lia.
+      - injection X as <- <- _ _. left. cbn. lia. }
+    destruct K as [K|(Eg & Et & rng & k & Em & L0)].
+    - left. unfold mlt, MA, MB. cbn [threads].
+      pose proof (nsum_set_nth ma_th _ _ _ (norm th0) N) as SA. pose proof (nsum_set_nth mb_th _ _ _ (norm th0) N) as SB.
+      destruct Nm as [Nm|Nm]; [left; lia|]. rewrite Nm in *. lia.
+    - right. subst m. split.
+      + destruct Nm as [Nm|Nm]; [rewrite Et in Nm; unfold norm in Nm; rewrite Hag in Nm; lia|].
+        rewrite Nm, Et, Eg, (set_nth_same _ _ _ N). destruct s; reflexivity.
+      + exists rng, k, rest. split; [unfold agof; rewrite N; exact Hag | exact L0].
+  Qed.
+
+  Hypothesis Hs : 0 <= shift.
+  Variable progs : list (list gop).
+  Hypothesis Wf : Forall (Forall wf_op) progs.
+  Variable pick : nat -> nat.
+  (* every thread is scheduled again and again *)
+  Hypothesis Fair : forall t n, (t < length progs)%nat -> exists n', (n <= n')%nat /\ pick n' = t.
+
+  (* the run under [pick]: a thread that has returned (or does not exist) is simply skipped *)
+  Fixpoint sigma (n : nat) : state :=
+    match n with
+    | O => init progs
+    | S k => match gstep strat shift (sigma k) (pick k) [] with Some (s', _, _) => s' | None => sigma k end
+    end.
+
+  Lemma sigma_reach n : reach (gstep strat shift) (init progs) (sigma n).
+  Proof.
+    induction n as [|n IH]; cbn [sigma]; [apply reach_refl|].
+    destruct (gstep strat shift (sigma n) (pick n) []) as [[[s' ch'] site]|] eqn:E; [eapply reach_step; eauto | exact IH].
+  Qed.
+
+  Lemma sigma_length n : length (threads (sigma n)) = length progs.
+  Proof.
+    induction n as [|n IH]; cbn [sigma]; [unfold init; cbn [threads]; apply map_length|].
+    destruct (gstep strat shift (sigma n) (pick n) []) as [[[s' ch'] site]|] eqn:E; [|exact IH].
+    unfold gstep in E. destruct (nth_error _ _) as [th|]; [|discriminate]. destruct (ag th); [discriminate|].
+    destruct (exec _ _ _ _ _) as [[[g' pre] rs] site0]. injection E as <- _ _. cbn [threads]. rewrite set_nth_length. exact IH.
+  Qed.
+
+  Definition can_progress (s : state) (t : nat) : Prop :=
+    exists m rest, agof s t = m :: rest /\ (forall rng k, m = MWait rng k -> lookup k (g_bufs (sh s)) <> 0).
+
+  (* if thread t can make progress at time n and is scheduled at time n + d, the measure has dropped by then *)
+  Lemma chase d : forall n t, can_progress (sigma n) t -> pick (n + d) = t -> exists j, mlt (sigma (S j)) (sigma n).
+  Proof.
+    induction d as [|d IH]; intros n t CP Pk.
+    - replace (n + 0)%nat with n in Pk by lia. exists n. cbn [sigma]. rewrite Pk.
+      destruct CP as (m & rest & HA & NW).
+      destruct (gstep strat shift (sigma n) t []) as [[[s' ch'] site]|] eqn:E.
+      + destruct (step_measure _ _ _ _ _ _ E) as [L|(_ & rng & k & rest' & HA' & L0)]; [exact L|].
+        exfalso. rewrite HA in HA'. injection HA' as -> _. exact (NW rng k eq_refl L0).
+      + exfalso. unfold gstep, agof in *. destruct (nth_error _ t) as [th|]; [|discriminate HA].
+        rewrite HA in E. destruct (exec _ _ _ _ _) as [[[g' pre] rs] site0]. discriminate E.
+    - assert (Same : sigma (S n) = sigma n -> exists j, mlt (sigma (S j)) (sigma n)).
+      { intros Es. destruct (IH (S n) t) as [j Hj].
+        - rewrite Es. exact CP.
+        - replace (S n + d)%nat with (n + S d)%nat by lia. exact Pk.
+        - exists j. rewrite Es in Hj. exact Hj. }
+      destruct (gstep strat shift (sigma n) (pick n) []) as [[[s' ch'] site]|] eqn:E.
+      + destruct (step_measure _ _ _ _ _ _ E) as [L|(Es & _)].
+        * exists n. cbn [sigma]. rewrite E. exact L.
+        * apply Same. cbn [sigma]. rewrite E. exact Es.
+      + apply Same. cbn [sigma]. rewrite E. reflexivity.
+  Qed.
+
+  Theorem grow_terminates : exists n, finished (sigma n) = true.
+  Proof.
+    assert (G : forall a b n, MA (sigma n) = a -> MB (sigma n) = b -> exists n', finished (sigma n') = true).
+    { induction a as [a IHa] using lt_wf_ind. induction b as [b IHb] using lt_wf_ind. intros n Ea Eb.
+      destruct (finished (sigma n)) eqn:F; [exists n; exact F|].
+      destruct (grow_some_thread_progresses strat shift Hs progs Wf (sigma n) (sigma_reach n) F) as (t & m & rest & HA & NW).
+      assert (Tl : (t < length progs)%nat).
+      { rewrite <- (sigma_length n). apply nth_error_Some. unfold agof in HA. destruct (nth_error _ t); [discriminate | discriminate HA]. }
+      destruct (Fair t n Tl) as (n' & Le & Pk).
+      destruct (chase (n' - n) n t) as [j Hj].
+      - exists m, rest. auto.
+      - replace (n + (n' - n))%nat with n' by lia. exact Pk.
+      - destruct Hj as [L|[E L]].
+        + assert (L' : (MA (sigma (S j)) < a)%nat) by (rewrite <- Ea; exact L).
+          exact (IHa (MA (sigma (S j))) L' (MB (sigma (S j))) (S j) eq_refl eq_refl).
+        + assert (L' : (MB (sigma (S j)) < b)%nat) by (rewrite <- Eb; exact L).
+          assert (E' : MA (sigma (S j)) = a) by (rewrite <- Ea; exact E).
+          exact (IHb (MB (sigma (S j))) L' (S j) E' eq_refl). }
+    exact (G _ _ 0%nat eq_refl eq_refl).
+  Qed.
+End Liveness.
